@@ -4,7 +4,6 @@
 -/
 import GeoModel.Driver
 import GeoModel.Write
-import GeoModel.GeoDriver
 namespace Geo
 namespace Driver
 
@@ -551,16 +550,7 @@ def stepW (w : World) (line : String) : World × String :=
     | some (.coll _ _ _ idx) => (w, s!"{b2s idx} | - | oi")
     | some _ => (w, "notcoll")
     | none => (w, "noobj")
-  | "gfn" :: name :: args =>
-    -- numeric correspondence of the translated geo formulas at Float: arguments and results are
-    -- IEEE bit patterns in hex; the harness compares with a tolerance (libm differences)
-    let parseBits (h : String) : Float := Float.ofBits (UInt64.ofNat (h.toList.foldl (fun acc c => acc * 16 + hexVal c) 0))
-    let toHex (f : Float) : String :=
-      let n := f.toBits.toNat
-      String.ofList ((List.range 16).reverse.map (fun i => "0123456789abcdef".toList.getD ((n / 16 ^ i) % 16) '0'))
-    match geoEval name (args.map parseBits) with
-    | some rs => (w, " ".intercalate (rs.map toHex) ++ s!" | - | gf:{name}")
-    | none => (w, "bad-op")
+  | "gfn" :: _ => (w, "bad-op")   -- answered by the side executable gfndriver (GMain.lean)
   | t :: _ =>
     if t.startsWith "x" then (w, "ok | - | x")
     else
